@@ -26,8 +26,10 @@ Ref(x) == [k |-> "ref", n |-> x]
 LabBlocks == {<<Lab("la"), i1, Ref("la")>> : i1 \in {x \in Items : x.k # "org"}}
              \cup {<<Ref("lb"), i1, Lab("lb"), Ref("lb")>> : i1 \in {x \in Items : x.k # "org"}}
              \cup {<<Lab("la"), Ref("lb"), Ref("la"), Lab("lb")>>}
+\* blocks that place nothing: the next block without an address starts where such a block did
+EmptyBlocks == {<<[k |-> "res", cnt |-> 4]>>, <<Lab("la")>>, <<[k |-> "org", a |-> 32], [k |-> "res", cnt |-> 12]>>}
 A(a, its) == [k |-> "asm", a |-> a, items |-> its]
-AsmCmds == {A(a, b) : a \in {-1, 0, 16, 60, 256, 16380}, b \in Blocks} \cup {A(a, b) : a \in {-1, 16, 256}, b \in LabBlocks}
+AsmCmds == {A(a, b) : a \in {-1, 0, 16, 60, 256, 16380}, b \in Blocks} \cup {A(a, b) : a \in {-1, 16, 256}, b \in LabBlocks \cup EmptyBlocks}
 \* fetch sessions: write a load-immediate instruction byte by byte, optionally overwrite its immediate with
 \* another write (8, 16 or 32 bits wide, which the byte order then places), execute it
 \* via = "asm": the instruction is assembled interactively instead of written byte by byte
@@ -43,6 +45,7 @@ Emit == Len(s) = n => PrintT("CASE " \o ToJson(s))
 \* boundary, then the bytes and the values around it are printed
 AsmSessions == {<<W(1, 16, <<<<119, 0, 0, 0>>>>), W(1, 280, <<<<119, 0, 0, 0>>>>), A(a, b), A(-1, <<D(2, <<<<52, 18, 0, 0>>>>)>>), P(1, 0, 64), P(1, 256, 320), P(2, 16368, 16400)>> :
                   a \in {0, 16, 256, 16380}, b \in Blocks}
+               \cup {<<A(a, b), A(-1, <<D(2, <<<<52, 18, 0, 0>>>>)>>), P(1, 0, 64), P(1, 256, 320)>> : a \in {16, 256}, b \in LabBlocks \cup EmptyBlocks}
 \* symbol sessions: the loaded file defines foo, bar and last (unit addresses); writes and ranges name them
 Syms == <<[name |-> "foo", a |-> 256], [name |-> "bar", a |-> 260], [name |-> "last", a |-> 280]>>
 SymVal(syms, nm) == syms[CHOOSE i \in 1..Len(syms) : syms[i].name = nm].a
